@@ -253,6 +253,27 @@ impl Prop for C18 {
             Err(x) => fail!("factors_reparse", "the written factors cannot be read back: {}", x),
         };
         same_factors(&f, &fback)?;
+        // read back the way the program reads a factors file (parsed and prepared again, no user values): every
+        // factor of the set is still there with its value, to the three printed decimals
+        match cteepbd::cte::wfactors_from_str(&f.to_string(), cteepbd::UserWF { red1: None, red2: None }, cteepbd::cte::CTE_USERWF) {
+            Ok(again) => {
+                for (i, x) in f.wdata.iter().enumerate() {
+                    // (the first line with a key is the factor; later lines with the same key are inert)
+                    if f.wdata[..i].iter().any(|w| w.carrier == x.carrier && w.source == x.source && w.dest == x.dest && w.step == x.step) {
+                        continue;
+                    }
+                    let y = again.wdata.iter().find(|y| y.carrier == x.carrier && y.source == x.source && y.dest == x.dest && y.step == x.step);
+                    let y = match y {
+                        Some(y) => y,
+                        None => fail!("factors_round_trip", "factor `{}` is lost when the written set is prepared again", x),
+                    };
+                    for (p, q) in [(x.ren, y.ren), (x.nren, y.nren), (x.co2, y.co2)] {
+                        ensure!((p - q).abs() <= 0.0005 * 1.001 + 2.0 * f32::EPSILON * p.abs(), "factors_round_trip", "factor `{}` becomes `{}` when the written set is read and prepared again", x, y);
+                    }
+                }
+            }
+            Err(x) => fail!("factors_reparse", "the written factors cannot be prepared again: {}", x),
+        }
         let stripped = f.clone().strip(&comps);
         let sback: Factors = match stripped.to_string().parse() {
             Ok(x) => x,
@@ -281,13 +302,17 @@ impl Prop for C18 {
                 // by print_err x max factor); expressed through the tolerance multiplier
                 let maxf = crate::dom::ALL_CARS.iter().map(|c| ft.max_abs(*c)).fold(1.0, f64::max).max(a.wfactors.wdata.iter().map(|x| x.ren.abs().max(x.nren.abs()).max(x.co2.abs()) as f64).fold(1.0, f64::max));
                 let perr = print_err + 0.005 * n as f64 * 3.0;
+                // printing error of the factors themselves (zero for factors given in thousandths; a factor such as
+                // 0.0004 prints as 0.000): each weighted figure is a sum of at most three flows times a factor
+                let fq = f.wdata.iter().flat_map(|x| [x.ren, x.nren, x.co2]).map(|v| ((v as f64) - ((v as f64) * 1000.0).round() / 1000.0).abs()).fold(0.0f64, f64::max);
+                let ferr = if fq > 1e-7 { (fq + 1e-7) * 3.0 * sc.tot_energy } else { 0.0 };
                 let (fa, fb) = (flat(&a), flat(&b));
                 let pick = |f: &crate::flat::Flat, by_srv: bool| -> crate::flat::Flat { f.iter().filter(|(k, e)| (e.kind == crate::flat::EK::Weighted && k.contains("_by_srv")) == by_srv).map(|(k, v)| (k.clone(), v.clone())).collect() };
                 compare_flats(
                     &pick(&fa, false),
                     &pick(&fb, false),
                     &sc,
-                    &CmpOpts { names: ("original", "read back"), sub: "same_evaluation", tol_mult: 2.0, slack_energy: 2.0 * perr, slack_weighted: 4.0 * perr * maxf, skip_ratio_vecs: true, ..Default::default() },
+                    &CmpOpts { names: ("original", "read back"), sub: "same_evaluation", tol_mult: 2.0, slack_energy: 2.0 * perr, slack_weighted: 4.0 * perr * maxf + ferr, skip_ratio_vecs: true, ..Default::default() },
                 )?;
                 // weighted energy by service = carrier total x (use of the service / EPB use): ill
                 // conditioned when the EPB use of a carrier is of the order of the printing error
@@ -303,7 +328,7 @@ impl Prop for C18 {
                     &pick(&fa, true),
                     &pick(&fb, true),
                     &sc,
-                    &CmpOpts { names: ("original", "read back"), sub: "same_evaluation_by_service", tol_mult: 2.0, slack_weighted: 4.0 * perr * maxf + 2.0 * cond, ..Default::default() },
+                    &CmpOpts { names: ("original", "read back"), sub: "same_evaluation_by_service", tol_mult: 2.0, slack_weighted: 4.0 * perr * maxf + 2.0 * cond + ferr, ..Default::default() },
                 )?;
             }
             (Err(_), Err(_)) => {}
@@ -500,9 +525,14 @@ pub fn check_cli(e: &BFCase, text: &str, mode: u8, ctx: &mut Ctx) -> CheckResult
             // tables are as ill conditioned as in the in-process comparison above: a carrier whose EPB
             // use is of the order of the printing error spreads its whole weighted energy differently
             let perr = 0.005 * nl * n * 3.0;
+            let mut fq = 0.0f64;
+            let mut tot_e = 0.0f64;
             let (maxf, cond) = match inputs(&e.b, &e.f).and_then(|inp| eval_sound(&inp.comps, &inp.factors, e.k, e.area, e.lm)) {
                 Ok(ep) => {
                     let maxf = ep.wfactors.wdata.iter().map(|x| x.ren.abs().max(x.nren.abs()).max(x.co2.abs()) as f64).fold(1.0, f64::max);
+                    // printing error of the factors (zero for thousandths) and the energy it multiplies
+                    fq = ep.wfactors.wdata.iter().flat_map(|x| [x.ren, x.nren, x.co2]).map(|v| ((v as f64) - ((v as f64) * 1000.0).round() / 1000.0).abs()).fold(0.0f64, f64::max);
+                    tot_e = ep.balance_cr.values().map(|b| (b.used.epus_an + b.used.nepus_an + b.used.cgnus_an + b.prod.an) as f64).sum();
                     let mut cond = 0.0;
                     for bc in ep.balance_cr.values() {
                         let w = [bc.we.a.ren, bc.we.a.nren, bc.we.a.co2, bc.we.b.ren, bc.we.b.nren, bc.we.b.co2].iter().fold(0.0f64, |m, x| m.max(x.abs() as f64));
@@ -513,7 +543,8 @@ pub fn check_cli(e: &BFCase, text: &str, mode: u8, ctx: &mut Ctx) -> CheckResult
                 }
                 Err(_) => (1.0, 0.0),
             };
-            let bound = (perr * 3.0 * maxf + 2.0 * cond) / e.area as f64 + 0.011;
+            let ferr = if fq > 1e-7 { (fq + 1e-7) * 3.0 * tot_e } else { 0.0 };
+            let bound = (perr * 3.0 * maxf + 2.0 * cond + ferr) / e.area as f64 + 0.011;
             let scale: f64 = r1.all_numbers.iter().fold(0.0f64, |m, x| m.max(x.abs()));
             // entry by entry; a table entry missing on one side reads as zero (a carrier whose whole
             // use is below the printed precision disappears from the by-carrier tables)
@@ -522,6 +553,11 @@ pub fn check_cli(e: &BFCase, text: &str, mode: u8, ctx: &mut Ctx) -> CheckResult
             keys.sort();
             keys.dedup();
             for k in keys {
+                // the DHW share uses the ratio ren / (ren + nren) of a factor, which printing destroys for a factor
+                // below the three printed decimals (0.0001, 0, 0.0001 -> 0.000, 0.000, 0.000): not compared then
+                if fq > 1e-7 && k.contains("Porcentaje renovable") {
+                    continue;
+                }
                 let empty = vec![];
                 let (a, b) = (m1.get(k).unwrap_or(&empty), m2.get(k).unwrap_or(&empty));
                 if k.starts_with("d:") {
